@@ -246,10 +246,12 @@ where
                                     return Ok(Some(right));
                                 }
                             }
-                            t => Err(format!("Association created with non-symbol type {:?} on pair left.", t))?,
+                            // pair keyed by something other than a symbol, cannot match
+                            _ => {}
                         }
                     }
-                    t => Err(format!("Association created with non-pair type {:?}.", t))?,
+                    // unkeyed item, cannot match
+                    _ => {}
                 },
             }
             
